@@ -365,7 +365,7 @@ pub fn replay(part: &str, case: serde_json::Value) -> Option<CaseResult> {
 pub fn meta() -> EvidenceMeta {
     EvidenceMeta {
         level: "exploration",
-        rule: "cases = min_size in {0,1,2,10,1000,random} x pre-existing file (absent, min-1, min, min+1, random) x append/truncate mode x window count 1-3 x a history of 1-20 appends (or a simultaneous start: 2-8 threads released by a barrier, 1-5 records each) x optional second appender lifetime on the same path; oracle after every append: rolled iff size at start-up >= min_size (0 in truncate mode); if rolled the newest archive is byte-identical to the pre-existing content and the active file is exactly the new records, else active = pre-existing ++ records; no further archive ever appears during the lifetime (all indices checked); threaded start: the active file parses into exactly the acknowledged records with per-thread order. The user-defined roller may fail on the start-up roll before or after moving the file (never made up for later; after a move the next record opens a fresh file); the trigger may come from the onstartup deserializer without min_size; two lifetimes of 70 000 records; the encoder may refuse the very first record (the rotation still belongs to it); part huge: sparse pre-existing files of 4 GiB - 2 ... 20 GiB against thresholds on either side. non-trivial = |size at start - min_size| <= 1, or the threaded start, or min_size 0 with an empty/absent file".into(),
+        rule: "cases = min_size in {0,1,2,10,1000,random} x pre-existing file (absent, min-1, min, min+1, random) x append/truncate mode x window count 1-3 x a history of 1-20 appends (or a simultaneous start: 2-8 threads released by a barrier, 1-5 records each) x optional second appender lifetime on the same path; oracle after every append: rolled iff size at start-up >= min_size (0 in truncate mode); if rolled the newest archive is byte-identical to the pre-existing content and the active file is exactly the new records, else active = pre-existing ++ records; no further archive ever appears during the lifetime (all indices checked); threaded start: the active file parses into exactly the acknowledged records with per-thread order. The user-defined roller may fail on the start-up roll before or after moving the file (never made up for later; after a move the next record opens a fresh file); the trigger may come from the onstartup deserializer without min_size; two lifetimes of 70 000 records; the encoder may refuse the very first record (the rotation still belongs to it); part huge: sparse pre-existing files of 4 GiB - 2 ... 20 GiB against thresholds on either side. Further inputs (rounds 10-14): the configured path may be a symbolic link to the pre-existing file; the log file may be moved away by somebody between start-up and the first record (nothing left to archive, the first record opens a fresh file, no rotation later); the path may hold a reference to a variable that is set only after the appender was built. non-trivial = |size at start - min_size| <= 1, or the threaded start, or min_size 0 with an empty/absent file".into(),
         assumptions: vec!["OS scheduler not controlled: the simultaneous start is amplified by a barrier only".into()],
         mutants_caught: vec![],
     }
